@@ -9,7 +9,7 @@ def build(chk):
     chk.assumptions_used.update(["A-REAL", "A-NP", "A-MATH"])
     chk.math_lemmas.append("Gauss-Markov: a linear map R satisfying the normal equations R C_oo = C_no (on the retained subspace) minimises E|s_on - R s_off|^2 over all linear maps")
     tomography.obligations(chk)
-    chk.bounded_native("method wrapper: follows rebuilds of the covariance matrix (no stale reconstructor); end to end through the builder the reconstructor satisfies the normal equations on the retained subspace", "method", "one 3-WFS system with a rebuild; 5 built systems (guide star in the target direction at another altitude / mask layout / wavelength, true duplicate, no coincidence) x 2 conditionings, tolerance 2e-3 max|C|", "aotools/turbulence/slopecovariance.py:CovarianceMatrix.make_tomographic_reconstructor")
+    chk.bounded_native("method wrapper: follows rebuilds of the covariance matrix (no stale reconstructor); end to end through the builder the reconstructor satisfies the normal equations on the retained subspace", "method", "one 3-WFS system rebuilt by the in-process builder and by the pool of worker processes (threads 1->1, 2->2, 1->2, 2->1) and with a caller-assigned matrix; 5 built systems (guide star in the target direction at another altitude / mask layout / wavelength, true duplicate, no coincidence) x 2 conditionings, tolerance 2e-3 max|C|", "aotools/turbulence/slopecovariance.py:CovarianceMatrix.make_tomographic_reconstructor")
     # end-to-end clause: the matrix the reconstructor is computed from is the builder's; its assembly / mirror contract (C01) is re-checked here
     with chk.borrow("C01"):
         slopecov.assembly_obligations(chk, 3, 2, mp=False)
